@@ -36,3 +36,69 @@ func (r *Rand) Int63n(n int64) int64 {
 }
 
 func (r *Rand) Int63() int64 { return r.r.Int63() }
+
+// The rest of math/rand's API (a change of the code under test that starts using it
+// must still build). Bounded draws are environment choices over {0, middle, max} like
+// Int63n; unbounded ones come from the stock generator.
+func choose3(label string, n int64) int64 {
+	if n <= 0 {
+		panic("invalid argument to " + label)
+	}
+	switch vsched.Choose(label, 3) {
+	case 1:
+		return n / 2
+	case 2:
+		return n - 1
+	}
+	return 0
+}
+
+func (r *Rand) Intn(n int) int {
+	if vsched.Current() == nil {
+		return r.r.Intn(n)
+	}
+	return int(choose3("rand.Intn", int64(n)))
+}
+
+func (r *Rand) Int31n(n int32) int32 {
+	if vsched.Current() == nil {
+		return r.r.Int31n(n)
+	}
+	return int32(choose3("rand.Int31n", int64(n)))
+}
+
+func (r *Rand) Float64() float64 {
+	if vsched.Current() == nil {
+		return r.r.Float64()
+	}
+	return [3]float64{0, 0.5, 0.999999}[vsched.Choose("rand.Float64", 3)]
+}
+
+func (r *Rand) Int() int                           { return r.r.Int() }
+func (r *Rand) Int31() int32                       { return r.r.Int31() }
+func (r *Rand) Uint32() uint32                     { return r.r.Uint32() }
+func (r *Rand) Uint64() uint64                     { return r.r.Uint64() }
+func (r *Rand) Float32() float32                   { return r.r.Float32() }
+func (r *Rand) NormFloat64() float64               { return r.r.NormFloat64() }
+func (r *Rand) ExpFloat64() float64                { return r.r.ExpFloat64() }
+func (r *Rand) Perm(n int) []int                   { return r.r.Perm(n) }
+func (r *Rand) Shuffle(n int, swap func(i, j int)) { r.r.Shuffle(n, swap) }
+func (r *Rand) Seed(seed int64)                    { r.r.Seed(seed) }
+func (r *Rand) Read(p []byte) (int, error)         { return r.r.Read(p) }
+
+// Package-level functions draw from one process-wide generator.
+var global = New(NewSource(1))
+
+func Int63n(n int64) int64               { return global.Int63n(n) }
+func Intn(n int) int                     { return global.Intn(n) }
+func Int31n(n int32) int32               { return global.Int31n(n) }
+func Float64() float64                   { return global.Float64() }
+func Int63() int64                       { return global.Int63() }
+func Int() int                           { return global.Int() }
+func Int31() int32                       { return global.Int31() }
+func Uint32() uint32                     { return global.Uint32() }
+func Uint64() uint64                     { return global.Uint64() }
+func Float32() float32                   { return global.Float32() }
+func Perm(n int) []int                   { return global.Perm(n) }
+func Shuffle(n int, swap func(i, j int)) { global.Shuffle(n, swap) }
+func Seed(seed int64)                    { global.Seed(seed) }
